@@ -294,6 +294,8 @@ def selftest(ctx, rows, badset):
             if not x.get("ok"):
                 continue
             y["rdf"] = x["rdf"] + 1
+        elif x["op"] == "btokCVCUnwrap":      # "ok" also depends on the semantic checks; the bound field is fmt
+            y["fmt"] = not x["fmt"]
         elif x.get("ok") is True and isinstance(x.get("n"), int) and "n" in x:
             y["n"] = x["n"] + 1
         elif "out" in x and x["out"]:
